@@ -210,4 +210,41 @@ CLAIMED = {
              "SketchEntry field the track reader reconstructs must come from written bytes (a field synthesised from the loop index requires a dense writer); header widths agree.",
         note="Not decided: filter false-positive behaviour, simhash values. Known finding (open): frame_id is not serialised and is rebuilt from the entry position.",
         design_ref="DESIGN.md §4 C39"),
+    "C02": dict(
+        technique="who-may-call + closure-provenance of the staging operation, MIR dominance in with_staging_lock (rename after op Ok and sync; Err arm discards and restores), and a frozen reference table of in-place writer sets per public entry point computed on the call graph with staging closures cut",
+        text="Partial (staging discipline): commit_from_records runs only inside a closure passed to with_staging_lock; the rename of the staged copy is dominated by op's Ok arm and a sync "
+             "of the staging handle, the Err arm discards the staging file and restores file/wal/header/toc/data_end/generation/dirty; no public entry point gains a function that writes "
+             "the live file in place beyond the reviewed per-entry set.",
+        note="Not decided: the state after a crash at each file-system mutation (crash points are runtime). The reviewed in-place paths (WAL append, WAL growth shift, tickets, "
+             "commit_skip_indexes, vacuum, open-time recovery, doctor) are listed, not proved crash-atomic.",
+        design_ref="DESIGN.md §4 C02"),
+    "C19": dict(
+        technique="interprocedural path-provenance analysis of every file-system creation sink reachable from the public API (backward slices through local callees), RAII pairing of the staging object, dominance of ensure_single_file before the first open",
+        text="Partial: every file/dir creation reachable from the Memvid API takes the memory path itself, a system-temp path or the atomic staging object; paths derived from the memory "
+             "path by with_extension/set_extension/with_file_name/join/push/format! are sidecars and are reported; constructors and doctor call ensure_single_file (eight forbidden names) "
+             "before the first open.",
+        note="Not decided: what external crates create internally (atomic-write-file's temporary sibling, Tantivy's work directory under the system temp dir). thorough tier analyses the wide "
+             "feature configuration, where replay/parallel_segments sidecars are findings.",
+        design_ref="DESIGN.md §4 C19"),
+    "C23": dict(
+        technique="taint analysis on type-checked MIR: nondeterminism sources (clock, RNG, UUID, Tantivy segment snapshot) to persisted aggregates and file writes, with the explicit-input override idiom as the only sanitizer; type scan of persisted ADTs for RandomState collections (candidates)",
+        text="Partial: with an explicit timestamp, no clock/RNG/UUID value reaches WalEntryData/Frame fields or bytes written to the memory file on the put path; the clock feeds the "
+             "timestamp only as the default of options.timestamp.",
+        note="Not decided: byte identity (runtime). Known finding (open): Tantivy segment names (random UUIDs) and snapshot bytes are embedded in the file, so two identical histories differ "
+             "in bytes. HashMap-typed persisted fields are listed as untriaged candidates.",
+        design_ref="DESIGN.md §4 C23"),
+    "C28": dict(
+        technique="edge-cut reachability on the tantivy_dirty test in rebuild_indexes, data-dependence agreement between the bytes persisted and the bytes decoded into the installed in-memory index, sibling agreement of commit-side and reopen-side decoders",
+        text="Partial: the incremental Tantivy arm is reachable only when no provisional instant-index entries exist; the in-memory lex/vec indexes a commit installs are decoded from the "
+             "very artifact bytes it persists and whose length/checksum it records; the reopen path decodes with the same decoder at the manifest's offset/length; put_internal's instant "
+             "index marks tantivy_dirty.",
+        note="Not decided: equality of query answers before and after reopen (values); Tantivy's own persistence.",
+        design_ref="DESIGN.md §4 C28"),
+    "C29": dict(
+        technique="sibling agreement between unlock_file_oneshot and unlock_file_stream (size/magic validation before Ok), writer/reader agreement of nonce derivation and chunk framing, dominance of decrypt success before plaintext write, header field coverage; configuration `encryption`",
+        text="Partial: both unlock siblings reach Ok only past a comparison of the produced size with header.original_size; lock and unlock derive chunk nonces and frame chunks identically; "
+             "plaintext is written only after the chunk authenticated; output goes through write_atomic; every header field written is read or validated.",
+        note="Not decided: AES-GCM/Argon2, byte equality of unlock(lock(f)). The sibling rule found a genuine defect (streaming unlock accepted a capsule truncated at a chunk boundary), "
+             "repaired by fix commit d0b37d1. Untriaged candidate: streaming sibling does not validate the MV2 magic.",
+        design_ref="DESIGN.md §4 C29"),
 }
